@@ -21,7 +21,8 @@
     C12_hex3_cells        the 24 darts of a cell are closed under β0, β1, β2 (volumes ↔ cells) and
                           β3 is null iff the face is on the outer boundary, else the facing dart
     C12_parse2/3_error_iff, C12_parse2/3_forms_agree   descriptor parsing
-    C12_build2_zero_count_panics   the proved negation for the known finding D6
+    C12_build2_zero_count_empty / C12_build2_total   zero cell count ⇒ Ok(empty map), never a panic (after the
+                          repair of D6 in /repo 9dd602d); plain grid: every nx, ny gives a WF map with nx·ny faces
   and the `NOT PROVED` comment block (after `C12_grid2_area`).
 -/
 import Mathlib.Tactic.Ring
@@ -431,33 +432,47 @@ example : parse3 (0, 0, 0) none none (some (1, 6, 1)) = .err errMissingGrid :=
 
 /-! ## zero cell counts -/
 
-/-- KNOWN FINDING D6 (the proved negation of "a zero cell count yields an error or an empty map,
-    never a panic" for the 2-D builders): with valid lengths, **every** 2-D descriptor with a zero
-    count panics (`n_square_x - 1` on `usize`, overflow checks on). -/
-theorem C12_build2_zero_count_panics (split : Bool) (o : Rat × Rat) {nx ny : Nat} {lpx lpy : Rat}
-    (h0 : nx = 0 ∨ ny = 0) (hx : 0 < lpx) (hy : 0 < lpy) (lens : Option (Rat × Rat)) :
-    build2 split o (some (nx, ny)) (some (lpx, lpy)) lens = .panic := by
+/-- the empty map: only the null dart -/
+abbrev emptyMap2 : Map Val := Map.empty 3 6 1
+
+theorem emptyMap2_facts : emptyMap2.n = 1 ∧ WF 3 emptyMap2 ∧ iterFaces2 emptyMap2 = [] ∧
+    iterVertices2 emptyMap2 = [] := by decide
+
+/-- Zero cell count, 2-D (the clause repaired by /repo 9dd602d, formerly finding D6): whenever the
+    descriptor parses (any of the three forms) to counts with `nx = 0` or `ny = 0`, `build()` returns
+    `Ok` with the empty map — one null dart, well-formed, no face, no vertex — split or not; it
+    never panics.  (Relies on the GENERATED flags `squareZeroGuard` / `trisZeroGuard`: if the guard
+    disappears from grid.rs this theorem stops compiling.) -/
+theorem C12_build2_zero_count_empty (split : Bool) (o : Rat × Rat) (n : Option (Nat × Nat))
+    (lpc lens : Option (Rat × Rat)) {o' : Rat × Rat} {nx ny : Nat} {l : Rat × Rat}
+    (hp : parse2 o n lpc lens = .ok (o', (nx, ny), l)) (h0 : nx = 0 ∨ ny = 0) :
+    build2 split o n lpc lens = .ok emptyMap2 ∧
+    emptyMap2.n = 1 ∧ WF 3 emptyMap2 ∧ iterFaces2 emptyMap2 = [] ∧ iterVertices2 emptyMap2 = [] := by
+  refine ⟨?_, emptyMap2_facts⟩
+  have hk : ∀ K : Nat, K * nx * ny = 0 := by
+    intro K
+    rcases h0 with h | h <;> subst h <;> simp
+  unfold build2
+  rw [hp]
+  cases split <;> simp [h0, squareZeroGuard, trisZeroGuard, hk]
+
+/-- instances: counts given explicitly with valid lengths (forms `n_cells + len_per_cell`, with or
+    without ignored totals, and `n_cells + lens`) -/
+theorem C12_build2_zero_count_forms (split : Bool) (o : Rat × Rat) {nx ny : Nat} {lx ly : Rat}
+    (h0 : nx = 0 ∨ ny = 0) (hx : 0 < lx) (hy : 0 < ly) (lens : Option (Rat × Rat)) :
+    build2 split o (some (nx, ny)) (some (lx, ly)) lens = .ok emptyMap2 ∧
+    build2 split o (some (nx, ny)) none (some (lx, ly)) = .ok emptyMap2 := by
   have a1 := badLen_pos hx
   have a2 := badLen_pos hy
-  unfold build2
-  rcases lens with _ | ⟨lx, ly⟩ <;> simp [parse2, a1, a2, h0]
+  constructor
+  · refine (C12_build2_zero_count_empty split o _ _ _ (o' := o) (l := (lx, ly)) ?_ h0).1
+    rcases lens with _ | ⟨tx, ty⟩ <;> simp [parse2, a1, a2]
+  · refine (C12_build2_zero_count_empty split o _ _ _ (o' := o)
+      (l := (lx / (nx : Rat), ly / (ny : Rat))) ?_ h0).1
+    simp [parse2, a1, a2]
 
-/-- the concrete witness -/
-theorem C12_zero_count_fails : ∃ split o n lpc, build2 split o (some n) (some lpc) none = .panic ∧
-    (n.1 = 0 ∨ n.2 = 0) ∧ 0 < lpc.1 ∧ 0 < lpc.2 :=
-  ⟨false, (0, 0), (0, 2), (2, 2),
-    C12_build2_zero_count_panics false (0, 0) (Or.inl rfl) two_pos two_pos none, Or.inl rfl, two_pos, two_pos⟩
-
-/-- what does hold today in 2-D: with positive counts the builder never panics on the descriptor
-    itself (the remaining `panic` branch of `build2` is the mirrored `debug_assert_eq!` on the face
-    count, see NOT PROVED) and refuses exactly the malformed descriptors -/
-theorem C12_build2_partial (split : Bool) (o : Rat × Rat) {nx ny : Nat} {lpx lpy : Rat}
-    (hx : 0 < lpx) (hy : 0 < lpy) (lens : Option (Rat × Rat)) :
-    (∃ e, build2 split o (some (nx, ny)) (some (lpx, lpy)) lens = .err e) → False := by
-  have a1 := badLen_pos hx
-  have a2 := badLen_pos hy
-  unfold build2
-  rcases lens with _ | ⟨lx, ly⟩ <;> simp [parse2, a1, a2] <;> intro e <;> (repeat' split) <;> simp
+example : build2 true (0, 0) (some (0, 2)) (some (2, 2)) none = .ok emptyMap2 :=
+  (C12_build2_zero_count_forms true (0, 0) (Or.inl rfl) two_pos two_pos none).1
 
 /-! ## (e) split grid: triangles and diagonal; hex grid: cells and shared faces -/
 
@@ -704,6 +719,40 @@ theorem C12_build2_ok (o : Rat × Rat) {nx ny : Nat} {lpx lpy : Rat} (hnx : 0 < 
   unfold build2
   rcases lens with _ | ⟨lx, ly⟩ <;> simp [parse2, a1, a2, h0, hf]
 
+/-- Full strength, **every** `nx, ny` (zero included): with positive cell lengths the plain 2-D
+    builder never panics and never errs — it returns the empty map for a zero count and the
+    regular grid of the theorems above otherwise; in both cases a well-formed map with `nx·ny`
+    faces. -/
+theorem C12_build2_total (o : Rat × Rat) (nx ny : Nat) {lpx lpy : Rat} (hx : 0 < lpx) (hy : 0 < lpy)
+    (lens : Option (Rat × Rat)) :
+    ∃ m, build2 false o (some (nx, ny)) (some (lpx, lpy)) lens = .ok m ∧ WF 3 m ∧
+      (iterFaces2 m).length = nx * ny ∧
+      m = (if nx = 0 ∨ ny = 0 then emptyMap2 else buildGrid2 o.1 o.2 nx ny lpx lpy) := by
+  by_cases h0 : nx = 0 ∨ ny = 0
+  · refine ⟨emptyMap2, (C12_build2_zero_count_forms false o h0 hx hy lens).1, emptyMap2_facts.2.1, ?_, by simp [h0]⟩
+    rw [emptyMap2_facts.2.2.1]
+    rcases h0 with h | h <;> subst h <;> simp
+  · have hnx : 0 < nx := by omega
+    have hny : 0 < ny := by omega
+    obtain ⟨h1, h2⟩ := C12_build2_ok o hnx hny hx hy lens
+    exact ⟨_, h1, C12_grid2_WF o.1 o.2 lpx lpy hnx hny, h2, by simp [h0]⟩
+
+/-- split grid, every `nx, ny`: never an error; a zero count gives the empty map (for positive
+    counts the only modelled panic is the mirrored face-count assertion, see NOT PROVED) -/
+theorem C12_build2_split_total (o : Rat × Rat) (nx ny : Nat) {lpx lpy : Rat} (hx : 0 < lpx) (hy : 0 < lpy)
+    (lens : Option (Rat × Rat)) :
+    (¬ ∃ e, build2 true o (some (nx, ny)) (some (lpx, lpy)) lens = .err e) ∧
+    (nx = 0 ∨ ny = 0 → build2 true o (some (nx, ny)) (some (lpx, lpy)) lens = .ok emptyMap2) := by
+  have a1 := badLen_pos hx
+  have a2 := badLen_pos hy
+  refine ⟨?_, fun h0 => (C12_build2_zero_count_forms true o h0 hx hy lens).1⟩
+  unfold build2
+  rcases lens with _ | ⟨lx, ly⟩ <;> simp [parse2, a1, a2] <;> (repeat' split) <;> simp
+
+example : ∃ m, build2 false (0, 0) (some (0, 5)) (some (2, 2)) none = .ok m ∧ WF 3 m :=
+  let ⟨m, h1, h2, _⟩ := C12_build2_total (0, 0) 0 5 two_pos two_pos none
+  ⟨m, h1, h2⟩
+
 example : build2 false (0, 0) (some (3, 2)) (some (2, 2)) none = .ok (buildGrid2 0 0 3 2 2 2) :=
   (C12_build2_ok (0, 0) (by decide) (by decide) two_pos two_pos none).1
 
@@ -788,5 +837,28 @@ theorem C12_split2_area (ox oy lx ly : Rat) (ix iy : Nat) :
 example : ∃ v, (buildSplit2 0 0 2 2 1 1).att 0 (vid2 (buildSplit2 0 0 2 2 1 1) (dartOf 6 2 2 1 1 0 5)) = some v :=
   ⟨_, (C12_split2_corners 0 0 1 1 (nx := 2) (ny := 2) (ix := 1) (iy := 1) (by decide) (by decide)
     (by decide) (by decide)).2.2.2.2.2⟩
+
+/-- Zero cell count, 3-D: `build()` returns `Ok` with the empty map (one null dart); no panic -/
+theorem C12_build3_zero_count_empty (o : Rat × Rat × Rat) {nx ny nz : Nat} {lx ly lz : Rat}
+    (h0 : nx = 0 ∨ ny = 0 ∨ nz = 0) (hx : 0 < lx) (hy : 0 < ly) (hz : 0 < lz)
+    (lens : Option (Rat × Rat × Rat)) :
+    ∃ m, build3 false o (some (nx, ny, nz)) (some (lx, ly, lz)) lens = .ok m ∧ m.n = 1 := by
+  have a1 := badLen_pos hx
+  have a2 := badLen_pos hy
+  have a3 := badLen_pos hz
+  have hk : hexK * nx * ny * nz = 0 := by
+    rcases h0 with h | h | h <;> subst h <;> simp
+  have hc : nx * ny * nz = 0 := by
+    rcases h0 with h | h | h <;> subst h <;> simp
+  have hm : buildHex3 o.1 o.2.1 o.2.2 nx ny nz lx ly lz = gridMap 4 0 (hexβ nx ny nz) := by
+    unfold buildHex3
+    simp only [hk]
+    rfl
+  refine ⟨gridMap 4 0 (hexβ nx ny nz), ?_, rfl⟩
+  unfold build3
+  rcases lens with _ | ⟨tx, ty, tz⟩ <;> simp [parse3, a1, a2, a3, hm, hc] <;> rfl
+
+example : ∃ m, build3 false (0, 0, 0) (some (2, 0, 1)) (some (2, 2, 2)) none = .ok m ∧ m.n = 1 :=
+  C12_build3_zero_count_empty (0, 0, 0) (Or.inr (Or.inl rfl)) two_pos two_pos two_pos none
 
 end HC.C12
